@@ -1142,10 +1142,41 @@ func c07Missing(c *core.Ctx, r *c07roles, fns []*ssa.Function, callersIn func(*s
 					continue
 				}
 				if raw > 0 {
-					// one text node whose data is the element's raw data on some paths and something else on others: an
-					// element that IS present in the segment is replaced (seed C07-19: the default stands in for an empty value)
-					c.Bad("R07c", fk+" text node of a present element", core.InstrPos(call), "the data of a text node created for an element found in the segment is, on some path, not the element's (unescaped) raw data but a default/constant: values present in the segment are tokenized as they are, the default applies only to a missing element")
-					continue
+					// mixing is judged per creation context: when the data is a parameter of a node-making helper, each
+					// call site of the helper is one context (benign 9: addElemNode(n, name, data) called once with raw
+					// data and once with the default)
+					mixed := true
+					if prm, ok := call.Call.Args[1].(*ssa.Parameter); ok {
+						fn := prm.Parent()
+						var sites []ssa.Value
+						for i, fp := range fn.Params {
+							if fp != prm {
+								continue
+							}
+							for _, cs := range callersIn(fn) {
+								if tree[cs.Parent()] && i < len(cs.Call.Args) {
+									sites = append(sites, cs.Call.Args[i])
+								}
+							}
+						}
+						if len(sites) > 0 {
+							mixed = false
+							for _, sv := range sites {
+								raw, nonRaw = 0, 0
+								seen = map[ssa.Value]bool{}
+								leaves(sv)
+								if raw > 0 && nonRaw > 0 {
+									mixed = true
+								}
+							}
+						}
+					}
+					if mixed {
+						// one text node whose data is the element's raw data on some paths and something else on others: an
+						// element that IS present in the segment is replaced (seed C07-19: the default stands in for an empty value)
+						c.Bad("R07c", fk+" text node of a present element", core.InstrPos(call), "the data of a text node created for an element found in the segment is, on some path, not the element's (unescaped) raw data but a default/constant: values present in the segment are tokenized as they are, the default applies only to a missing element")
+						continue
+					}
 				}
 				c.Check(good && usesDefault, "R07c", fk+" text node for a missing element", core.InstrPos(call), "data is \"\" or the declared default",
 					"the node created for a missing element does not carry the declared default (or the empty string)")
